@@ -134,6 +134,8 @@ if __name__ == "__main__":
         ingest(sys.argv[2], sys.argv[3:] or ["1", "2", "3"], root="/tmp/mut3", tag="r3.")
     elif cmd == "ingest4":
         ingest(sys.argv[2], sys.argv[3:] or ["1", "2", "3"], root="/tmp/mut4", tag="r4.")
+    elif cmd == "ingest5":
+        ingest(sys.argv[2], sys.argv[3:] or ["1", "2", "3"], root="/tmp/mut5", tag="r5.")
     elif cmd == "eval":
         a = [x for x in sys.argv[2:] if x != "--all"]
         evaluate(a, "--all" in sys.argv)
